@@ -176,6 +176,24 @@ pub fn heavy_strings(k: usize, omega: usize) -> Vec<HintStr> {
             a[k / 2] += total - k;
             v.push(("one-each-rest-mid".to_string(), a));
         }
+        // two-polynomial splits around a boundary: (total - b) hints, then b hints in the next polynomial
+        for i in [0usize, k - 2] {
+            for b in [1usize, 2, total - 2, total - 1] {
+                if b < total && total - b <= 256 && b <= 256 {
+                    let mut a = vec![0; k];
+                    a[i] = total - b;
+                    a[i + 1] = b;
+                    v.push((format!("boundary:poly{i}:{}+{b}", total - b), a));
+                }
+            }
+        }
+        // same with an empty polynomial between the two runs
+        if k >= 3 {
+            let mut a = vec![0; k];
+            a[0] = total - 1;
+            a[2] = 1;
+            v.push(("boundary:gap".to_string(), a));
+        }
         v
     };
     // runaway family: index bytes strictly increasing through the whole section and count bytes far above omega,
